@@ -172,7 +172,9 @@ def run_driver(ctx, binary, testname, env=None, timeout=1200, cwd=None, allow_fa
     e.update({k: str(v) for k, v in (env or {}).items()})
     cmd = [binary, "-test.run", "^%s$" % testname, "-test.v", "-test.timeout", "%ds" % timeout]
     try:
-        r = subprocess.run(cmd, cwd=cwd or ctx.tmp, env=e, capture_output=True, text=True, timeout=timeout + 30)
+        t = time.time()
+        r = subprocess.run(cmd, cwd=cwd or ctx.tmp, env=e, capture_output=True, text=True, errors="replace", timeout=timeout + 30)
+        log("  X %s: driver ran in %.1fs" % (testname, time.time() - t))
     except subprocess.TimeoutExpired:
         raise Infra("driver %s timed out after %ds" % (testname, timeout))
     if r.returncode != 0 and not allow_fail:
@@ -305,17 +307,18 @@ def mc(ctx, module, cfg, workers=8, timeout=900, heap="8g", coverage=False, expe
     return res
 
 
-def gen_cases(ctx, module, constants, outfile="cases.ndjson", timeout=600, heap="4g"):
+def gen_cases(ctx, module, constants, outfile="cases.ndjson", timeout=600, heap="4g", raw=""):
     """Run a *_Gen module whose ASSUME writes `OutFile` with ndJsonSerialize; returns list of cases."""
     wd = ctx.sub("gen-" + module)
     stage_specs(wd)
     outp = os.path.join(wd, outfile)
     c = dict(constants)
     c["OutFile"] = '"%s"' % outp
-    cfg = cfg_text(constants=c, spec=None, init="GenInit", next_="GenNext")
+    cfg = cfg_text(constants=c, spec=None, init="GenInit", next_="GenNext", raw=raw)
     res = tlc(ctx, wd, module, cfg, workers=1, timeout=timeout, heap=heap)
     if not os.path.exists(outp):
         raise Infra("generator %s wrote nothing:\n%s" % (module, res.tail(60)))
+    log("  G %s: cases written in %.1fs" % (module, res.wall))
     return outp
 
 
@@ -363,6 +366,7 @@ def validate_trace(ctx, module, lines, constants=None, shard=4000, timeout=900, 
         jobs.append((wd, module, cfgtxt, i, timeout, heap, dfs))
     bad_total = 0
     groups = {}
+    t_val = time.time()
     with cf.ThreadPoolExecutor(max_workers=par) as ex:
         for idx, rc, out, wall in ex.map(_validate_shard, jobs):
             wd = jobs[idx][0]
@@ -408,6 +412,7 @@ def validate_trace(ctx, module, lines, constants=None, shard=4000, timeout=900, 
                 bad_total += 1
             ctx.cov["traces_validated_against_impl"] += (1 if stateful else len(sh))
             shutil.rmtree(wd, ignore_errors=True)
+    log("  V %s: %d events in %d shards validated in %.1fs" % (module, sum(len(x) for x in shards), len(shards), time.time() - t_val))
     for why, lns in sorted(groups.items()):
         ctx.violation("%s: %s [%s] x%d e.g. %s" % (module, what, why, len(lns), lns[0][:300]), lns[:50])
     return bad_total
